@@ -4872,6 +4872,10 @@ def translate(repo, overrides):
     L += guarded_section("schedule", lambda: sched_section(toks, lambda rel: raw_of[rel]))  # [schedule extension] fourth increment: schedule.rs
     L += guarded_section("dated2", lambda: dated2_section(toks))  # [dated2 extension] fifth increment: the interval consumers of date_filter.rs
     L += guarded_section("eval", lambda: eval_section(toks, lambda rel: raw_of[rel]))  # [eval extension] fifth increment: opening_hours.rs
+    toks.raw = lambda rel: (toks(rel), raw_of[rel])[1]  # [tz extension]
+    L += guarded_section("tz", lambda: tz_section(toks, lambda rel: raw_of[rel]))  # [tz extension] fifth increment: localization/localize.rs
+    L += guarded_section("tz-pipe", lambda: tz_pipe_section(toks))  # [tz extension] the localisation pipeline of opening_hours.rs
+    L.insert(L.index("import OH.Model.RustInt") + 1, "import OH.Model.RustTz")  # [tz extension]
     L.append("end OH.Generated.Arith")
     return "\n".join(L).replace("import OH.Model.RustInt\n", "import OH.Model.RustInt\nimport OH.Model.RustSeq\nimport OH.Model.RustVec\n", 1) + "\n"
 
@@ -8031,6 +8035,1344 @@ def eval_section(toks, raw):
                                        externs=dict(g.externs), fuel=g.fuel)
     L += ["end Eval", ""]
     return L
+
+
+# [tz extension] fifth increment: opening-hours/src/localization/localize.rs (DESIGN §8.9, notes/RS2LEAN5-tz.md).
+# `Localize for TzLocation<Tz>` (`naive`, `datetime`) and `Localize for NoLocation`.  The impl is GENERIC in `Tz: TimeZone`:
+# `Tz` and `chrono::DateTime<Tz>` are type parameters `Tz` / `DT` of the generated definitions, the methods of chrono's
+# `TimeZone` / `DateTime` traits it calls are NAMED function parameters (`ext_from_local_datetime`, `ext_with_timezone`,
+# `ext_naive_local`), passed BY NAME in the theorems, which instantiate them with their meaning in the transition-table
+# model (OH/Model/RustTzZone.lean).  `NaiveDateTime` is its nanosecond count (`Int`), `TimeDelta::seconds/minutes(LIT)`,
+# `NaiveDateTime -= TimeDelta`, `checked_add_signed`, `LocalResult::earliest/latest` are the functions `TzChrono.*` /
+# `LocalResult.*` of OH/Model/RustTz.lean.  New statement forms: `loop { .. }` (tail of the function, left by `return`
+# only), `while c { .. }` with `break`, `if let Some([mut] x) = e { .. }`, `match e { Some(x) => stmt, None => stmt }`,
+# `x -= e`; loops are definitions with `fuel` as in the schedule extension.  A separate, self-contained front end
+# (`TzParser`, `TzGen`); anything else is an error naming file:line.
+
+F_TZ = "opening-hours/src/localization/localize.rs"
+TZ_IMPL_HEADER = ["impl", "<", "Tz", ">", "Localize", "for", "TzLocation", "<", "Tz", ">", "where", "Tz", ":", "TimeZone", "+", "Send", "+", "Sync", ",",
+                  "Tz", "::", "Offset", ":", "Send", "+", "Sync", ","]
+TZ_NOLOC_HEADER = ["impl", "Localize", "for", "NoLocation"]
+# (impl header, Lean namespace, `type DateTime = ..;` tokens expected in the impl, Lean type of Self::DateTime, functions)
+TZ_TARGETS = [
+    (TZ_NOLOC_HEADER, "NoLocation", ["NaiveDateTime"], "ndt", ["naive", "datetime"]),
+    (TZ_IMPL_HEADER, "TzLocation", ["chrono", "::", "DateTime", "<", "Tz", ">"], "dt", ["naive", "datetime", "event_time"]),
+]
+TZ_TRAIT_HEADER = ["pub", "trait", "Localize", ":", "Clone", "+", "Send", "+", "Sync"]
+TZ_IMPORTS = {("chrono", "NaiveDateTime"), ("chrono", "TimeDelta"), ("chrono", "TimeZone")}
+TZ_BINDER = "{Tz DT Coordinates : Type}"
+TZ_EXT = {  # name -> (Lean type, doc)
+    "ext_from_local_datetime": ("Tz → Int → LocalResult DT", "`TimeZone::from_local_datetime(&self, &NaiveDateTime) -> LocalResult<DateTime<Tz>>`"),
+    "ext_with_timezone": ("DT → Tz → DT", "`DateTime::with_timezone(&self, &Tz) -> DateTime<Tz>`"),
+    "ext_naive_local": ("DT → R Int", "`DateTime::naive_local(&self) -> NaiveDateTime` (may panic: `Local time out of range for `NaiveDateTime``)"),
+    "ext_coords_event_time": ("Coordinates → Int → TimeEvent → R DTU", "`Coordinates::event_time(&self, NaiveDate, TimeEvent) -> DateTime<Utc>` (coordinates.rs, the `sunrise` crate: not translated)"),
+    "ext_utc_with_timezone": ("DTU → Tz → DT", "`DateTime<Utc>::with_timezone(&self, &Tz) -> DateTime<Tz>`"),
+}
+TZ_LTY = {"ndt": "Int", "dt": "DT", "tz": "Tz", "delta": "Int", "bool": "Bool", "date": "Int", "tev": "TimeEvent", "ntime": "Int", "coords": "Coordinates", "dtu": "DTU"}
+TZ_EVENTS = ["Dawn", "Sunrise", "Sunset", "Dusk"]
+
+
+def tz_lty(t, top=True):
+    if t[0] in ("opt", "lr"):
+        s = f"{'Option' if t[0] == 'opt' else 'LocalResult'} {tz_lty(t[1], False)}"
+        return s if top else f"({s})"
+    if t[0] == "self":
+        return t[1] if top or " " not in t[1] else f"({t[1]})"
+    return TZ_LTY[t[0]]
+
+
+class TzParser:
+    """fn NAME(&self, [mut] x: TYPE, ..) -> TYPE block;  TYPE := NaiveDateTime | Self::DateTime
+    block := { stmt* [expr] }
+    stmt  := let [mut] x = expr ; | x = expr ; | x -= expr ; | return expr ; | break ; | loop block | while expr block
+           | if let Some([mut] x) = expr block | match expr { Some(x) => arm , None => arm [,] }   (arm := block | simple stmt without `;`)
+    expr  := cmp := post [(== != < <= > >=) post];  post := prim (.field | .method(args))*
+    prim  := NAME | self | & post | ( expr ) | STR | INT | TimeDelta::NAME(args) | if expr block else block"""
+
+    def __init__(self, tk, f, self_dt):
+        self.t, self.f, self.i, self.self_dt = tk, f, 0, self_dt
+
+    def peek(self, k=0):
+        return self.t[min(self.i + k, len(self.t) - 1)]
+
+    def at(self, text):
+        p = self.peek()
+        return p.text == text and p.kind in ("op", "id")
+
+    def where(self, tk=None):
+        return f"{self.f}:{(tk or self.peek()).line}"
+
+    def eat(self, text):
+        if not self.at(text):
+            fail(self.where(), f"expected `{text}`, found `{self.peek().text}` (outside the translated subset, tz functions)")
+        self.i += 1
+        return self.t[self.i - 1]
+
+    def ident(self):
+        p = self.peek()
+        if p.kind != "id" or p.text in ("let", "mut", "if", "else", "match", "loop", "while", "for", "return", "break", "continue", "fn", "move", "ref", "as", "unsafe"):
+            fail(self.where(), f"expected a name, found `{p.text}` (outside the translated subset, tz functions)")
+        self.i += 1
+        return p.text
+
+    def type_(self):
+        tk = self.peek()
+        if tk.text == "NaiveDateTime":
+            self.i += 1
+            return ("ndt",)
+        if tk.text in ("NaiveDate", "TimeEvent", "NaiveTime"):
+            self.i += 1
+            return ({"NaiveDate": "date", "TimeEvent": "tev", "NaiveTime": "ntime"}[tk.text],)
+        if tk.text == "Self" and self.peek(1).text == "::" and self.peek(2).text == "DateTime":
+            self.i += 3
+            return (self.self_dt,)
+        if tk.text == "Option" and self.peek(1).text == "<":
+            self.i += 2
+            inner = self.type_()
+            self.eat(">")
+            return ("opt", inner)
+        if tk.text == "L" and self.peek(1).text == "::" and self.peek(2).text == "DateTime" and self.self_dt == "ldt":
+            self.i += 3
+            return ("ldt",)
+        if tk.text == "impl" and self.self_dt == "ldt":  # exactly the opaque iterator type of `iter_range`
+            want = ["impl", "Iterator", "<", "Item", "=", "DateTimeRange", "<", "L", "::", "DateTime", ">", ">", "+", "Send", "+", "Sync", "+", "use", "<", "L", ">"]
+            got = [self.peek(k).text for k in range(len(want))]
+            if got[:10] + ([">>"] if got[10] == ">>" else got[10:12]) != want[:10] + ([">>"] if got[10] == ">>" else want[10:12]):
+                fail(self.where(tk), "this `impl Trait` type is outside the translated subset (tz functions)")
+            n = 11 if got[10] == ">>" else 12
+            if [self.peek(n + k).text for k in range(9)] != want[12:]:
+                fail(self.where(tk), "this `impl Trait` type is outside the translated subset (tz functions)")
+            self.i += n + 9
+            return ("iterret", ("dtr", ("ldt",)))
+        fail(self.where(tk), f"type `{tk.text}` is outside the translated subset (tz functions)")
+
+    def fn(self):
+        line = self.eat("fn").line
+        name = self.ident()
+        if self.at("<"):
+            fail(self.where(), "generic functions are outside the translated subset (tz functions)")
+        self.eat("(")
+        self.eat("&")
+        self.eat("self")
+        params = []
+        while not self.at(")"):
+            self.eat(",")
+            if self.at(")"):
+                break
+            mut = False
+            if self.at("mut"):
+                self.i += 1
+                mut = True
+            pn = self.ident()
+            self.eat(":")
+            params.append((pn, self.type_(), mut))
+        self.eat(")")
+        self.eat("->")
+        ret = self.type_()
+        if self.at("where"):
+            fail(self.where(), "`where` clauses are outside the translated subset")
+        return Node("fn", line, name=name, params=params, ret=ret, body=self.block())
+
+    def block(self):
+        line = self.eat("{").line
+        stmts, tail = [], None
+        while not self.at("}"):
+            if tail is not None:
+                fail(self.where(), "statement after the tail expression")
+            s = self.stmt(True)
+            if s.kind == "tail":
+                tail = s.e
+            else:
+                stmts.append(s)
+        self.eat("}")
+        return Node("block", line, stmts=stmts, tail=tail)
+
+    def stmt(self, in_block):
+        """`in_block`: followed by `;` where Rust wants one; otherwise a match arm (no `;`)"""
+        tk = self.peek()
+
+        def semi():
+            if in_block:
+                self.eat(";")
+
+        if self.at("let"):
+            if not in_block:
+                fail(self.where(), "`let` as a match arm")
+            self.i += 1
+            mut = False
+            if self.at("mut"):
+                self.i += 1
+                mut = True
+            if self.at("Some") and not mut:
+                self.i += 1
+                self.eat("(")
+                name = self.ident()
+                self.eat(")")
+                self.eat("=")
+                e = self.expr()
+                self.eat("else")
+                els = self.block()
+                self.eat(";")
+                return Node("letelse", tk.line, name=name, e=e, els=els)
+            name = self.ident()
+            if not self.at("="):
+                fail(self.where(), "this `let` (pattern, type annotation or `let .. else`) is outside the translated subset (tz functions)")
+            self.i += 1
+            e = self.expr()
+            if self.at("else"):
+                fail(self.where(), "`let .. else` is outside the translated subset (tz functions)")
+            self.eat(";")
+            return Node("let", tk.line, name=name, mut=mut, e=e)
+        if self.at("return"):
+            self.i += 1
+            e = self.expr()
+            if in_block and not self.at("}"):
+                self.eat(";")
+            elif in_block and self.at(";"):
+                self.i += 1
+            return Node("ret", tk.line, e=e)
+        if self.at("break"):
+            self.i += 1
+            if not (self.at(";") or self.at("}") or self.at(",")):
+                fail(self.where(), "`break` with a label or a value is outside the translated subset")
+            if in_block and self.at(";"):
+                self.i += 1
+            return Node("break", tk.line)
+        if self.at("continue") or self.at("for"):
+            fail(self.where(), f"`{tk.text}` is outside the translated subset (tz functions)")
+        if self.at("loop"):
+            self.i += 1
+            return Node("loop", tk.line, body=self.block())
+        if self.at("while"):
+            self.i += 1
+            if self.at("let"):
+                self.i += 1
+                self.eat("Some")
+                self.eat("(")
+                name = self.ident()
+                self.eat(")")
+                self.eat("=")
+                c = self.expr()
+                return Node("whilelet", tk.line, name=name, c=c, body=self.block())
+            c = self.expr()
+            return Node("while", tk.line, c=c, body=self.block())
+        if self.at("if") and self.peek(1).text == "let":
+            self.i += 2
+            self.eat("Some")
+            self.eat("(")
+            mut = False
+            if self.at("mut"):
+                self.i += 1
+                mut = True
+            name = self.ident()
+            self.eat(")")
+            self.eat("=")
+            scrut = self.expr()
+            body = self.block()
+            if self.at("else"):
+                fail(self.where(), "`if let .. else` is outside the translated subset (tz functions)")
+            return Node("iflet", tk.line, name=name, mut=mut, scrut=scrut, body=body)
+        if self.at("match") and self.match_is_option():
+            self.i += 1
+            scrut = self.expr()
+            self.eat("{")
+            arms = {}
+            for _ in range(2):
+                ptk = self.peek()
+                if self.at("None"):
+                    self.i += 1
+                    key, name = "none", None
+                else:
+                    self.eat("Some")
+                    self.eat("(")
+                    name = self.ident()
+                    self.eat(")")
+                    key = "some"
+                if key in arms:
+                    fail(self.where(ptk), "two arms of the same shape")
+                if self.at("if"):
+                    fail(self.where(), "match guards are outside the translated subset (tz functions)")
+                self.eat("=>")
+                if self.at("{"):
+                    body = self.block()
+                    if body.tail is not None:
+                        fail(self.where(ptk), "a match arm with a value is outside the translated subset (tz functions: `match` is a statement)")
+                    if self.at(","):
+                        self.i += 1
+                else:
+                    s = self.stmt(False)
+                    if s.kind == "tail":
+                        fail(self.where(ptk), "a match arm with a value is outside the translated subset (tz functions: `match` is a statement)")
+                    body = Node("block", ptk.line, stmts=[s], tail=None)
+                    if not self.at("}"):
+                        self.eat(",")
+                arms[key] = (name, body)
+            self.eat("}")
+            if in_block and self.at(";"):
+                self.i += 1
+            return Node("matchopt", tk.line, scrut=scrut, arms=arms)
+        e = self.expr()
+        t2 = self.peek()
+        if t2.kind == "op" and t2.text in ("=", "-="):
+            path, q = [], e
+            while q.kind == "field":
+                path.insert(0, q.name)
+                q = q.e
+            if q.kind != "var" or (path and t2.text != "="):
+                fail(self.where(t2), "only a local variable (or, with `=`, a field path of one) can be assigned (tz functions)")
+            self.i += 1
+            rhs = self.expr()
+            semi()
+            return Node("assign", t2.line, name=q.name, path=path, e=rhs, op=t2.text)
+        if t2.kind == "op" and t2.text in ("+=", "*=", "/=", "%=", "|=", "&=", "^=", "<<=", ">>="):
+            fail(self.where(t2), f"`{t2.text}` is outside the translated subset (tz functions)")
+        if in_block and self.at("}"):
+            return Node("tail", tk.line, e=e)
+        fail(self.where(t2), "an expression statement is outside the translated subset (tz functions)")
+
+    def match_is_option(self):
+        save = self.i
+        self.i += 1
+        self.expr()
+        ok = self.at("{") and self.peek(1).text in ("Some", "None")
+        self.i = save
+        return ok
+
+    def expr(self):
+        a = self.and_()
+        tk = self.peek()
+        if tk.kind == "op" and tk.text == "..":
+            self.i += 1
+            return Node("range", tk.line, a=a, b=self.and_())
+        return a
+
+    def and_(self):
+        a = self.cmp_()
+        while self.peek().kind == "op" and self.peek().text == "&&":
+            ln = self.eat("&&").line
+            a = Node("and", ln, a=a, b=self.cmp_())
+        return a
+
+    def cmp_(self):
+        a = self.post()
+        tk = self.peek()
+        if tk.kind == "op" and tk.text in ("==", "!=", "<", "<=", ">", ">="):
+            self.i += 1
+            b = self.post()
+            t3 = self.peek()
+            if t3.kind == "op" and t3.text in ("==", "!=", "<", "<=", ">", ">="):
+                fail(self.where(t3), f"`{t3.text}` after a comparison is outside the translated subset (tz functions)")
+            return Node("cmp", tk.line, op=tk.text, a=a, b=b)
+        if tk.kind == "op" and tk.text in ("+", "-", "*", "/", "%", "||", "..=", "[", "|", "^", "<<", ">>", "!"):
+            fail(self.where(tk), f"`{tk.text}` is outside the translated subset (tz functions)")
+        if tk.kind == "id" and tk.text == "as":
+            fail(self.where(tk), "`as` is outside the translated subset (tz functions)")
+        return a
+
+    def args(self):
+        self.eat("(")
+        out = []
+        while not self.at(")"):
+            out.append(self.expr())
+            if not self.at(")"):
+                self.eat(",")
+        self.eat(")")
+        return out
+
+    def post(self):
+        e = self.prim()
+        while self.at(".") or self.at("?"):
+            if self.at("?"):
+                e = Node("try", self.eat("?").line, e=e)
+                continue
+            ln = self.eat(".").line
+            name = self.ident()
+            if self.at("::"):
+                fail(self.where(), "turbofish is outside the translated subset")
+            if self.at("("):
+                e = Node("method", ln, e=e, name=name, args=self.args())
+            else:
+                e = Node("field", ln, e=e, name=name)
+        return e
+
+    def closure(self, tk):
+        params = []
+        if self.at("||"):
+            self.i += 1
+        else:
+            self.eat("|")
+            while not self.at("|"):
+                params.append(self.ident())
+                if not self.at("|"):
+                    self.eat(",")
+            self.eat("|")
+        if self.at("{"):
+            body = self.block()
+        else:
+            body = Node("block", self.peek().line, stmts=[], tail=self.expr())
+        return Node("closure", tk.line, params=params, body=body)
+
+    def prim(self):
+        tk = self.peek()
+        if tk.kind == "op" and tk.text == "&":
+            self.i += 1
+            if self.at("mut"):
+                fail(self.where(), "`&mut` is outside the translated subset (tz functions)")
+            return Node("ref", tk.line, e=self.post())
+        if tk.kind == "op" and tk.text == "(":
+            self.i += 1
+            e = self.expr()
+            self.eat(")")
+            return e
+        if tk.kind == "str":
+            self.i += 1
+            if not re.fullmatch(r'"[^"\\{}]*"', tk.text):
+                fail(self.where(tk), "only plain string literals are translated")
+            return Node("str", tk.line, s=tk.text[1:-1])
+        if tk.kind == "num":
+            self.i += 1
+            if not re.fullmatch(r"\d[\d_]*", tk.text):
+                fail(self.where(tk), "only plain integer literals are translated (tz functions)")
+            return Node("int", tk.line, v=int(tk.text.replace("_", "")))
+        if tk.kind == "id" and tk.text == "if":
+            self.i += 1
+            if self.at("let"):
+                fail(self.where(), "`if let` as a value is outside the translated subset (tz functions)")
+            c = self.expr()
+            a = self.block()
+            self.eat("else")
+            if self.at("if"):
+                fail(self.where(), "`else if` is outside the translated subset (tz functions)")
+            b = self.block()
+            for blk in (a, b):
+                if blk.stmts or blk.tail is None:
+                    fail(f"{self.f}:{blk.line}", "the branches of an `if` value have to be single expressions (tz functions)")
+            return Node("ifv", tk.line, c=c, a=a.tail, b=b.tail)
+        if tk.kind == "id" and tk.text == "match":
+            self.i += 1
+            scrut = self.expr()
+            self.eat("{")
+            arms = []
+            while not self.at("}"):
+                en = self.ident()
+                self.eat("::")
+                var = self.ident()
+                if self.at("(") or self.at("{") or self.at("|") or self.at("if"):
+                    fail(self.where(), "only `ENUM::VARIANT => expr` arms are translated (tz functions)")
+                self.eat("=>")
+                arms.append((en, var, self.expr()))
+                if not self.at("}"):
+                    self.eat(",")
+            self.eat("}")
+            return Node("matchenum", tk.line, scrut=scrut, arms=arms)
+        if tk.kind == "id" and tk.text == "move":
+            self.i += 1
+            return self.closure(tk)
+        if tk.kind == "op" and tk.text in ("|", "||"):
+            return self.closure(tk)
+        if tk.kind == "op" and tk.text == "{":
+            return Node("blockv", tk.line, body=self.block())
+        if tk.kind == "id" and tk.text == "Some" and self.peek(1).text == "(":
+            self.i += 1
+            a = self.args()
+            if len(a) != 1:
+                fail(self.where(tk), "`Some(..)` takes one argument")
+            return Node("some", tk.line, e=a[0])
+        if tk.kind == "id" and self.peek(1).text == "::":
+            path = [tk.text]
+            self.i += 1
+            while self.at("::"):
+                self.i += 1
+                path.append(self.ident())
+            return Node("pathcall", tk.line, ty="::".join(path[:-1]), name=path[-1], args=self.args())
+        if tk.kind == "id" and tk.text == "self":
+            self.i += 1
+            return Node("self", tk.line)
+        if tk.kind == "id":
+            name = self.ident()
+            if self.at("(") or self.at("!"):
+                fail(self.where(tk), f"the call `{name}(..)` is outside the translated subset (tz functions)")
+            return Node("var", tk.line, name=name)
+        fail(self.where(tk), f"`{tk.text}` is outside the translated subset (tz functions)")
+
+
+def tz_idents(x, out):
+    """every variable name mentioned below `x`"""
+    if isinstance(x, Node):
+        if x.kind == "var":
+            out.add(x.name)
+        for v in x.__dict__.values():
+            tz_idents(v, out)
+    elif isinstance(x, (list, tuple)):
+        for v in x:
+            tz_idents(v, out)
+    elif isinstance(x, dict):
+        for v in x.values():
+            tz_idents(v, out)
+
+
+class TzGen:
+    """typed CPS generator: `cg(e, k)` evaluates `e` in Rust's order and hands `k` (a Lean atom, its type); statements are
+    generated with the continuation of their block; a block that ends in `return` / `break` has none"""
+
+    def __init__(self, f, ns, node, self_lty, fields):
+        self.f, self.ns, self.node, self.self_lty, self.fields = f, ns, node, self_lty, fields
+        self.lean_name = f"{ns}.{node.name}"
+        self.binder = None if ns == "TzLocation" else ""
+        self.self_arg, self.self_param = "self ", f"(self : {self_lty}) "
+        self.n = self.nloop = 0
+        self.defs, self.externs, self.fuel = [], [], False
+        self.sigs = {}
+
+    def w(self, node):
+        return f"{self.f}:{node.line}"
+
+    def tmp(self):
+        self.n += 1
+        return f"tmp{self.n}"
+
+    def ext(self, name):
+        if name not in self.externs:
+            self.externs.append(name)
+        return name
+
+    # ---- expressions
+    def cg(self, e, env, k):
+        kd = e.kind
+        if kd == "var":
+            if e.name == "NoLocation" and e.name not in env:
+                return k("NoLocation.mk", ("self", "NoLocation"))
+            if e.name not in env:
+                fail(self.w(e), f"unknown variable `{e.name}` (tz functions)")
+            return k(lname(e.name), env[e.name][0])
+        if kd == "ref":
+            return self.cg(e.e, env, k)
+        if kd == "self":
+            return k("self", ("self", self.self_lty))
+        if kd == "var" and e.name == "NoLocation" and e.name not in env:
+            return k("NoLocation.mk", ("self", "NoLocation"))
+        if kd == "matchenum":
+            def km(a, t):
+                if t != ("tev",) or [(en, v) for en, v, _ in e.arms] != [("TimeEvent", v) for v in TZ_EVENTS]:
+                    fail(self.w(e), "only `match EVENT { TimeEvent::Dawn => .., TimeEvent::Sunrise => .., TimeEvent::Sunset => .., TimeEvent::Dusk => .. }` is translated (tz functions)")
+                out, ty = [f"match {a} with"], None
+                for _, v, body in e.arms:
+                    def kb(x, tx):
+                        return k(x, tx)
+                    out += [f"| .{v} => ("] + self.ind(self.cg(body, env, kb)) + ["  )"]
+                return out
+            return self.cg(e.scrut, env, km)
+        if kd == "field":
+            def kf(a, t):
+                if t[0] != "self" or e.name not in self.fields:
+                    fail(self.w(e), f"field `.{e.name}` is outside the translated subset (tz functions)")
+                return k(f"{a}.{lname(e.name)}", self.fields[e.name])
+            return self.cg(e.e, env, kf)
+        if kd == "cmp":
+            def ka(a, ta):
+                def kb(b, tb):
+                    if ta != tb or ta[0] != "ndt":
+                        fail(self.w(e), f"`{e.op}` is translated between two `NaiveDateTime` only (tz functions)")
+                    op = {"==": "=", "!=": "≠", "<": "<", "<=": "≤", ">": ">", ">=": "≥"}[e.op]
+                    return k(f"(decide ({a} {op} {b}))", ("bool",))
+                return self.cg(e.b, env, kb)
+            return self.cg(e.a, env, ka)
+        if kd == "ifv":
+            def kc(c, tc):
+                if tc[0] != "bool":
+                    fail(self.w(e), "the condition is not a `bool`")
+                pa, pb = self.pure(e.a, env), self.pure(e.b, env)
+                if pa[1] != pb[1]:
+                    fail(self.w(e), "the two branches of the `if` have different types")
+                return k(f"(if {c} then {pa[0]} else {pb[0]})", pa[1])
+            return self.cg(e.c, env, kc)
+        if kd == "pathcall":
+            if e.ty == "NaiveTime" and e.name == "from_hms_opt" and len(e.args) == 3 and all(x.kind == "int" and x.v < 2 ** 32 for x in e.args):
+                return k(f"(TzChrono.from_hms_opt {e.args[0].v} {e.args[1].v} {e.args[2].v})", ("opt", ("ntime",)))
+            if e.ty == "TimeDelta" and e.name in ("seconds", "minutes") and len(e.args) == 1 and e.args[0].kind == "int" and e.args[0].v < 10 ** 12:
+                return k(f"(TzChrono.{e.name} {e.args[0].v})", ("delta",))
+            fail(self.w(e), f"the call `{e.ty}::{e.name}(..)` is outside the translated subset (tz functions: `TimeDelta::seconds/minutes(LITERAL)`)")
+        if kd == "method":
+            def kr(r, tr):
+                return self.cg_args(e.args, env, [], lambda av: self.method(e, r, tr, av, k))
+            return self.cg(e.e, env, kr)
+        fail(self.w(e), f"this expression ({kd}) is outside the translated subset (tz functions)")
+
+    def cg_args(self, args, env, acc, k):
+        if not args:
+            return k(acc)
+        if args[0].kind == "str":
+            return self.cg_args(args[1:], env, acc + [(args[0].s, ("str",))], k)
+        return self.cg(args[0], env, lambda a, t: self.cg_args(args[1:], env, acc + [(a, t)], k))
+
+    def method(self, e, r, tr, av, k):
+        name, tys = e.name, [t for _, t in av]
+        if tr[0] == "tz" and name == "from_local_datetime" and tys == [("ndt",)]:
+            return k(f"({self.ext('ext_from_local_datetime')} {r} {av[0][0]})", ("lr", ("dt",)))
+        if tr[0] == "lr" and name in ("earliest", "latest") and not av:
+            return k(f"(LocalResult.{name} {r})", ("opt", tr[1]))
+        if tr[0] == "ndt" and name == "checked_add_signed" and tys == [("delta",)]:
+            return k(f"(TzChrono.ndt_checked_add_signed {r} {av[0][0]})", ("opt", ("ndt",)))
+        if tr[0] == "dt" and name == "with_timezone" and tys == [("tz",)]:
+            return k(f"({self.ext('ext_with_timezone')} {r} {av[0][0]})", ("dt",))
+        if tr[0] == "dt" and name == "naive_local" and not av:
+            v = self.tmp()
+            return [f"bnd ({self.ext('ext_naive_local')} {r}) fun {v} =>"] + k(v, ("ndt",))
+        if tr[0] == "ndt" and name == "time" and not av:
+            return k(f"(TzChrono.ndt_time {r})", ("ntime",))
+        if tr[0] == "coords" and name == "event_time" and tys == [("date",), ("tev",)]:
+            v = self.tmp()
+            return [f"bnd ({self.ext('ext_coords_event_time')} {r} {av[0][0]} {av[1][0]}) fun {v} =>"] + k(v, ("dtu",))
+        if tr[0] == "dtu" and name == "with_timezone" and tys == [("tz",)]:
+            return k(f"({self.ext('ext_utc_with_timezone')} {r} {av[0][0]})", ("dt",))
+        if tr[0] == "self" and (tr[1].split()[0], name) in self.sigs:
+            sig = self.sigs[(tr[1].split()[0], name)]
+            if tys != sig["params"]:
+                fail(self.w(e), f"the call of `{name}`: argument types")
+            for x in sig["externs"]:
+                self.ext(x)
+            if sig["fuel"]:
+                fail(self.w(e), f"the call of `{name}`, which has loops, is outside the translated subset here (tz functions)")
+            v = self.tmp()
+            args = "".join(f" {x}" for x, _ in av) + "".join(f" ({x} := {x})" for x in sig["externs"])
+            recv = "" if sig["no_self"] else f" {r}"
+            return [f"bnd ({sig['lean']}{recv}{args}) fun {v} =>"] + k(v, sig["ret"])
+        if tr[0] == "opt" and name == "expect" and tys == [("str",)]:
+            v = self.tmp()
+            return [f"match {r} with", f"| none => .error (.panic \"{av[0][0]}\")", f"| some {v} =>"] + k(v, tr[1])
+        if tr[0] == "opt" and name == "unwrap" and not av:
+            v = self.tmp()
+            return [f"match {r} with", "| none => .error (.panic \"called `Option::unwrap()` on a `None` value\")", f"| some {v} =>"] + k(v, tr[1])
+        fail(self.w(e), f"method `.{name}()` on {tz_lty(tr)} is outside the translated subset (tz functions)")
+
+    def pure(self, e, env):
+        """an expression without effects, as (atom, type)"""
+        got = []
+
+        def k(a, t):
+            got.append((a, t))
+            return []
+        if self.cg(e, env, k) or len(got) != 1:
+            fail(self.w(e), "an expression that can panic is outside the translated subset here (tz functions)")
+        return got[0]
+
+    # ---- statements
+    def state(self, env):
+        return [n for n, (_, m) in env.items() if m]
+
+    def tuple_(self, names):
+        names = [lname(n) for n in names]
+        return names[0] if len(names) == 1 else "(" + ", ".join(names) + ")" if names else "()"
+
+    def tuple_ty(self, env, names):
+        tys = [tz_lty(env[n][0], False) for n in names]
+        return tys[0] if len(tys) == 1 else "(" + " × ".join(tys) + ")" if tys else "Unit"
+
+    def block(self, blk, env, frame, k):
+        """lines of the block; `k(env)` = what follows it (None: the block must not fall through)"""
+        env = dict(env)
+        return self.stmts(blk, 0, env, frame, k)
+
+    def ind(self, lines):
+        return ["  " + x for x in lines]
+
+    def stmts(self, blk, i, env, frame, k):
+        if i == len(blk.stmts):
+            if blk.tail is not None:
+                if k is not None or frame["kind"] not in ("fn",):
+                    fail(self.w(blk.tail), "a block with a value is translated only as the body of the function (tz functions)")
+                return self.cg(blk.tail, env, lambda a, t: self.ret(blk.tail, a, t, frame, env))
+            if k is None:
+                fail(f"{self.f}:{blk.line}", "this block has to end in `return` / `break` / a value (tz functions)")
+            return k(env)
+        s = blk.stmts[i]
+        last = i + 1 == len(blk.stmts) and blk.tail is None
+
+        def rest(env2):
+            return self.stmts(blk, i + 1, env2, frame, k)
+
+        if s.kind in ("ret", "break", "loop") and not last:
+            fail(self.w(blk.stmts[i + 1]), f"statement after `{s.kind if s.kind != 'ret' else 'return'}`")
+        if s.kind == "let":
+            def kl(a, t):
+                if s.name in env:
+                    fail(self.w(s), f"`let {s.name}` shadows a variable in scope: outside the translated subset (tz functions)")
+                env2 = dict(env)
+                env2[s.name] = (t, s.mut)
+                return [f"let {lname(s.name)} := {a}"] + rest(env2)
+            return self.cg(s.e, env, kl)
+        if s.kind == "assign":
+            if s.name not in env or not env[s.name][1]:
+                fail(self.w(s), f"`{s.name}` is not a `mut` variable in scope")
+            if s.path:
+                return self.assign_path(s, env, rest)
+            vt = env[s.name][0]
+
+            def ka(a, t):
+                if s.op == "=":
+                    if t != vt:
+                        fail(self.w(s), f"assignment of a {tz_lty(t)} to a variable of type {tz_lty(vt)}")
+                    return [f"let {lname(s.name)} := {a}"] + rest(env)
+                if vt[0] != "ndt" or t[0] != "delta":
+                    fail(self.w(s), "`-=` is translated as `NaiveDateTime -= TimeDelta` only (tz functions)")
+                v = self.tmp()
+                return [f"bnd (TzChrono.ndt_sub {lname(s.name)} {a}) fun {v} =>", f"let {lname(s.name)} := {v}"] + rest(env)
+            return self.cg(s.e, env, ka)
+        if s.kind == "ret":
+            return self.cg(s.e, env, lambda a, t: self.ret(s, a, t, frame, env))
+        if s.kind == "letelse":
+            def kle(a, t):
+                if t[0] != "opt":
+                    fail(self.w(s), "`let Some(..) = e else { .. }` on a value that is not an `Option`")
+                if s.name in env:
+                    fail(self.w(s), f"`let Some({s.name})` shadows a variable in scope (tz functions)")
+                if not self.diverges(s.els):
+                    fail(self.w(s), "the `else` block of `let .. else` has to end in `return`")
+                env2 = dict(env)
+                env2[s.name] = (t[1], False)
+                return [f"match {a} with", "| none => ("] + self.ind(self.block(s.els, env, frame, None)) + ["  )", f"| some {lname(s.name)} =>"] + rest(env2)
+            return self.cg(s.e, env, kle)
+        if s.kind == "break":
+            if frame["kind"] != "while":
+                fail(self.w(s), "`break` outside a `while` loop is outside the translated subset (tz functions)")
+            return [f".ok (.next {self.tuple_(frame['state'])})"]
+        if s.kind == "iflet":
+            def ks(a, t):
+                if t[0] != "opt":
+                    fail(self.w(s), "`if let Some(..)` on a value that is not an `Option`")
+                if s.name in env:
+                    fail(self.w(s), f"the pattern variable `{s.name}` shadows a variable in scope (tz functions)")
+                env2 = dict(env)
+                env2[s.name] = (t[1], s.mut)
+                # the variables of the block die with it: the continuation sees the outer ones (whose writes rebind the same names)
+                inner = self.block(s.body, env2, frame, (lambda e3: rest(env)) if not self.diverges(s.body) else None)
+                if last and k is None and not self.diverges(s.body):
+                    fail(self.w(s), "this block has to end in `return` / `break` (tz functions)")
+                return [f"match {a} with", f"| some {lname(s.name)} => ("] + self.ind(inner) + ["  )", "| none => ("] + self.ind(rest(env)) + ["  )"]
+            return self.cg(s.scrut, env, ks)
+        if s.kind == "matchopt":
+            def km(a, t):
+                if t[0] != "opt":
+                    fail(self.w(s), "`match .. { Some(..) => .., None => .. }` on a value that is not an `Option`")
+                out = [f"match {a} with"]
+                for key in ("some", "none"):
+                    name, body = s.arms[key]
+                    env2 = dict(env)
+                    if key == "some":
+                        if name in env:
+                            fail(self.w(s), f"the pattern variable `{name}` shadows a variable in scope (tz functions)")
+                        env2[name] = (t[1], False)
+                    inner = self.block(body, env2, frame, (lambda e3: rest(env)) if not self.diverges(body) else None)
+                    out += [f"| some {lname(name)} => (" if key == "some" else "| none => ("] + self.ind(inner) + ["  )"]
+                return out
+            return self.cg(s.scrut, env, km)
+        if s.kind == "while":
+            return self.loop_(s, env, frame, rest, True)
+        if s.kind == "loop":
+            if frame["kind"] != "fn" or k is not None:
+                fail(self.w(s), "`loop` is translated only as the last statement of the function body (tz functions)")
+            return self.loop_(s, env, frame, None, False)
+        fail(self.w(s), f"statement `{s.kind}` is outside the translated subset (tz functions)")
+
+    def diverges(self, blk):
+        if blk.tail is not None or not blk.stmts:
+            return False
+        s = blk.stmts[-1]
+        if s.kind in ("ret", "break", "loop"):
+            return True
+        if s.kind == "matchopt":
+            return all(self.diverges(b) for _, b in s.arms.values())
+        return False
+
+    def has_break(self, blk):
+        for s in blk.stmts:
+            if s.kind == "break":
+                return True
+            if s.kind == "iflet" and self.has_break(s.body):
+                return True
+            if s.kind == "matchopt" and any(self.has_break(b) for _, b in s.arms.values()):
+                return True
+        return False
+
+    def ret(self, node, a, t, frame, env):
+        if t != self.node.ret:
+            fail(self.w(node), f"the function returns a {tz_lty(t)} where its signature says {tz_lty(self.node.ret)}")
+        if frame["kind"] in ("fn", "loop"):
+            return [f".ok {a}"]
+        return [f".ok (.ret {a} {self.tuple_(frame['state'])})"]
+
+    def assign_path(self, s, env, rest):
+        fail(self.w(s), "assignment to a field is outside the translated subset (tz functions)")
+
+    def vparams(self, names, env):
+        return " ".join(f"({lname(n)} : {tz_lty(env[n][0])})" for n in names)
+
+    def vargs(self, names, env):
+        return " ".join(lname(n) for n in names)
+
+    def loop_(self, s, env, frame, rest, is_while, let_name=None):
+        """`while c { .. }` / `while let Some(x) = e { .. }`: `<fn>.loopN .. : R (Flow ret state)`; `loop { .. }` (left by
+        `return` only): `R ret`"""
+        self.nloop += 1
+        self.fuel = True
+        name = f"{self.lean_name}.loop{self.nloop}"
+        state = self.state(env)
+        used = set()
+        tz_idents(s, used)
+        if let_name:
+            state = [n for n in state if n in used]
+        fixed = [n for n in env if n not in state and n in used]  # the immutable variables the loop reads
+        if not is_while and self.has_break(s.body):
+            fail(self.w(s), "`break` out of `loop` is outside the translated subset (tz functions)")
+        fr = dict(frame, kind="while" if is_while else "loop", state=state)
+        call = (f"{name} «EXT:{name}»fuel {self.self_arg}" + self.vargs(fixed + state, env)).rstrip()
+        outer_ext, self.externs = self.externs, []
+
+        def again(env2):
+            return [call]
+
+        ret_ty = frame.get("ret_ty", self.node.ret)
+        rret = tz_lty(ret_ty, False)
+        if is_while:
+            def kc(c, tc):
+                nxt = [f".ok (.next {self.tuple_(state)})"]
+                if let_name:
+                    if tc[0] != "opt":
+                        fail(self.w(s), "`while let Some(..)` on a value that is not an `Option`")
+                    if let_name in env:
+                        fail(self.w(s), f"the pattern variable `{let_name}` shadows a variable in scope (tz functions)")
+                    env2 = dict(env)
+                    env2[let_name] = (tc[1], False)
+                    body = self.block(s.body, env2, fr, again if not self.diverges(s.body) else None)
+                    return [f"match {c} with", f"| some {lname(let_name)} => ("] + self.ind(body) + ["  )", "| none => ("] + self.ind(nxt) + ["  )"]
+                if tc[0] != "bool":
+                    fail(self.w(s), "the condition of `while` is not a `bool`")
+                body = self.block(s.body, env, fr, again if not self.diverges(s.body) else None)
+                return [f"if {c} then ("] + self.ind(body) + ["  )", "else ("] + self.ind(nxt) + ["  )"]
+            body = self.cg(s.c, env, kc)
+            rty = f"R (Flow {rret} {self.tuple_ty(env, state)})"
+        else:
+            body = self.block(s.body, env, fr, again if not self.diverges(s.body) else None)
+            rty = f"R {rret}"
+        params = ("(fuel : Nat) " + self.self_param + self.vparams(fixed + state, env)).rstrip()
+        exts, self.externs = self.externs, outer_ext
+        for x in exts:
+            self.ext(x)
+        self.defs.append((name, s.line, "while" if is_while else "loop", params, rty, ["match fuel with", "| 0 => .error (.panic loopFuelExhausted)", "| fuel + 1 =>"] + self.ind(body), exts))
+        if not is_while:
+            return [call]
+        v, r = self.tmp(), self.tmp()
+        out = [f"bnd ({call}) fun {v} =>", f"match {v} with", f"| .ret {r} {self.tuple_(state)} => ("]
+        out += self.ind(self.ret(s, r, ret_ty, frame, env)) + ["  )", f"| .next {self.tuple_(state)} =>"]
+        return out + rest(env)
+
+    def tz_binder(self, sig):
+        if self.binder is not None:
+            return self.binder
+        tps = [t for t in ("Tz", "DT", "DTU", "Coordinates") if re.search(rf"(?<![A-Za-z0-9_.]){t}(?![A-Za-z0-9_])", sig)]
+        return ("{" + " ".join(tps) + " : Type} ") if tps else ""
+
+    def ext_params(self, exts):
+        return "".join(f" ({x} : {TZ_EXT[x][0]})" for x in exts)
+
+    def finish(self, lines):
+        for d in self.defs:
+            lines = [x.replace(f"«EXT:{d[0]}»", "".join(f"({e} := {e}) " for e in d[6])) for x in lines]
+        return lines
+
+    def gen(self):
+        f = self.node
+        env = {}
+        for pn, pt, mut in f.params:
+            env[pn] = (pt, mut)
+        body = self.block(f.body, env, {"kind": "fn", "state": []}, None)
+        exts = list(self.externs)
+        L = []
+        for name, line, what, params, rty, lines, dexts in self.defs:
+            doc = {"while": "`.ret v s` = `return v`, `.next s` = the condition failed / `break`", "loop": "it is left by `return` only"}[what]
+            L.append(f"/-- the `{what}` loop of `{self.ns}::{f.name}` ({self.f}:{line}); `fuel` bounds its iterations; {doc} -/")
+            L.append(f"def {name} {self.tz_binder(params + self.ext_params(dexts) + rty)}{params}{self.ext_params(dexts)} : {rty} :=")
+            L += self.ind(self.finish(lines))
+            L.append("")
+        rs = {"ndt": "NaiveDateTime", "date": "NaiveDate", "tev": "TimeEvent", "ntime": "NaiveTime"}
+        sig = ", ".join(["&self"] + [f"{'mut ' if m else ''}{pn}: {rs.get(pt[0], 'Self::DateTime')}" for pn, pt, m in f.params])
+        doc = f"/-- `{self.ns}::{f.name}({sig}) -> {rs.get(f.ret[0], 'Self::DateTime')}` ({self.f}:{f.line})"
+        doc += "".join(f"; {x} = {TZ_EXT[x][1]}" for x in exts)
+        if self.fuel:
+            doc += "; `fuel` bounds the iterations of each loop (running out is an error outcome)"
+        L.append(doc + " -/")
+        ps = self.self_param + " ".join(f"({lname(pn)} : {tz_lty(pt)})" for pn, pt, _ in f.params)
+        L.append(f"def {self.lean_name} {self.tz_binder(ps + self.ext_params(exts))}{ps.rstrip()}{self.ext_params(exts)}{' (fuel : Nat)' if self.fuel else ''} : R {tz_lty(f.ret, False)} :=")
+        L += self.ind(self.finish(body))
+        return L
+
+
+def tz_section(toks, raw):
+    tk = toks(F_TZ)
+    uses = file_uses(tk)
+    for imp in sorted(TZ_IMPORTS):
+        if imp not in uses:
+            fail(F_TZ, f"`use {imp[0]}::{imp[1]};` not found: the name `{imp[1]}` is read as that item")
+    texts = [x.text for x in tk]
+
+    def find(seq, what):
+        hits = [i for i in range(len(texts) - len(seq)) if texts[i : i + len(seq)] == seq]
+        if len(hits) != 1:
+            fail(F_TZ, f"{what} not found (or found twice)")
+        return hits[0]
+
+    o = find(["struct", "NoLocation", ";"], "`struct NoLocation;`")
+    L = ["/-! ### [tz extension] opening-hours/src/localization/localize.rs -/", "", "namespace Localize", "",
+         f"/-- `struct NoLocation;` ({F_TZ}:{tk[o].line}) -/", "structure NoLocation where", "  mk ::", ""]
+    o = find(["struct", "TzLocation", "<", "Tz", ">", "where", "Tz", ":", "TimeZone", "+", "Send", "+", "Sync", ",", "{",
+              "tz", ":", "Tz", ",", "coords", ":", "Option", "<", "Coordinates", ">", ",", "}"],
+             "`struct TzLocation<Tz> where Tz: TimeZone + Send + Sync, { tz: Tz, coords: Option<Coordinates>, }`")
+    L += [f"/-- `struct TzLocation<Tz: TimeZone>` ({F_TZ}:{tk[o].line}); `Tz` and `Coordinates` are type parameters -/",
+          "structure TzLocation (Tz Coordinates : Type) where", "  tz : Tz", "  coords : Option Coordinates", ""]
+    sigs = {}
+    # the default method `Localize::event_time` (the trait's own body; `&self` is not used: no `self` parameter)
+    for imp in [("chrono", "NaiveDate"), ("chrono", "NaiveTime"), ("opening_hours_syntax::rules::time", "TimeEvent")]:
+        if imp not in uses:
+            fail(F_TZ, f"`use {imp[0]}::{imp[1]};` not found: the name `{imp[1]}` is read as that item")
+    where = find_impl_fns(tk, F_TZ, "Localize", None, ["event_time"], header=TZ_TRAIT_HEADER)
+    p = TzParser(tk, F_TZ, "ndt")
+    p.i = where["event_time"]
+    node = p.fn()
+    g = TzGen(F_TZ, "Localize", node, "Unit", {})
+    g.self_arg, g.self_param = "", ""
+    L += g.gen() + [""]
+    sigs[("NoLocation", "event_time")] = dict(lean="Localize.event_time", params=[pt for _, pt, _ in node.params], ret=node.ret, externs=list(g.externs), fuel=g.fuel, no_self=True)
+    h = [i for i in range(len(texts) - 4) if texts[i : i + 4] == TZ_NOLOC_HEADER]
+    if len(h) != 1 or "event_time" in texts[h[0] : matching(tk, h[0] + 4)]:
+        fail(F_TZ, "`impl Localize for NoLocation` is expected not to override `event_time` (`NoLocation.event_time(..)` is read as the trait's default method)")
+    for header, ns, dt_toks, self_dt, names in TZ_TARGETS:
+        where = find_impl_fns(tk, F_TZ, ns, "Localize", names, header=header)
+        h = find(header + ["{"], f"`{' '.join(header)} {{`")
+        want = ["type", "DateTime", "="] + dt_toks + [";"]
+        if texts[h + len(header) + 1 : h + len(header) + 1 + len(want)] != want:
+            fail(f"{F_TZ}:{tk[h].line}", f"`{' '.join(want)}` expected first in this impl (the meaning of `Self::DateTime`)")
+        if ns == "TzLocation":
+            self_lty, fields = "TzLocation Tz Coordinates", {"tz": ("tz",), "coords": ("opt", ("coords",))}
+        else:
+            self_lty, fields = "NoLocation", {}
+        for rname in names:
+            p = TzParser(tk, F_TZ, self_dt)
+            p.i = where[rname]
+            node = p.fn()
+            g = TzGen(F_TZ, ns, node, self_lty, fields)
+            g.sigs = sigs
+            L += g.gen() + [""]
+            sigs[(ns, rname)] = dict(lean=f"{ns}.{rname}", params=[pt for _, pt, _ in node.params], ret=node.ret, externs=list(g.externs), fuel=g.fuel, no_self=False)
+    L += ["end Localize", ""]
+    return L
+
+
+# ---- [tz extension], second part: the localisation pipeline of `OpeningHours::iter_range` (opening_hours.rs)
+F_OH = "opening-hours/src/opening_hours.rs"
+F_RANGE = "opening-hours/src/utils/range.rs"
+TZ_OH_HEADER = ["impl", "<", "L", ":", "Localize", ">", "OpeningHours", "<", "L", ">"]
+TZ_PIPE_BINDER = "{L DT Kind Comments : Type} [DecidableEq Kind]"
+TZ_DTR_N = "DateTimeRange Int Kind Comments"
+TZ_EXT.update({
+    "self_ctx_locale": ("L", "the field `self.ctx.locale` (read only)"),
+    "DATE_END": ("Int", "the constant `DATE_END` of opening_hours.rs"),
+    "ext_locale_naive": ("L → DT → R Int", "`Localize::naive(&self, L::DateTime) -> NaiveDateTime` of the generic `L: Localize`"),
+    "ext_locale_datetime": ("L → Int → R DT", "`Localize::datetime(&self, NaiveDateTime) -> L::DateTime` of the generic `L: Localize`"),
+    "ext_iter_range_naive": (f"Int → Int → R (List ({TZ_DTR_N}))", "`self.iter_range_naive(from, to)` (not translated here), as the list of the items it yields"),
+})
+TZ_LTY.update({"loc": "L", "ldt": "DT", "kind": "Kind", "comm": "Comments"})
+_tz_lty_before_pipe = tz_lty
+
+
+def tz_lty(t, top=True):  # noqa: F811
+    k = t[0]
+    if k in ("dtr", "range", "src", "filt", "fpeek", "iterret"):
+        s = {"dtr": lambda: f"DateTimeRange {tz_lty(t[1], False)} Kind Comments", "range": lambda: f"Range {tz_lty(t[1], False)}",
+             "src": lambda: f"List {tz_lty(t[1], False)}", "filt": lambda: f"List {tz_lty(t[1], False)}",
+             "fpeek": lambda: f"FilterPeek {tz_lty(t[1], False)}", "iterret": lambda: f"List {tz_lty(t[1], False)}"}[k]()
+        return s if top else f"({s})"
+    return _tz_lty_before_pipe(t, top)
+
+
+class TzPipeGen(TzGen):
+    """`iter_range`: generic `L: Localize` (type parameters `L`, `DT`; `locale.naive` / `locale.datetime` named parameters), the
+    lazy `Peekable<Filter<..>>` as `FilterPeek` (OH/Model/RustTz.lean) with the filter closure as a function to `R Bool`, the
+    `from_fn` closure as `<fn>.next : captured state -> R (item × state)`, the function itself as the collected `fromFn`"""
+
+    def __init__(self, f, ns, node, new_lit):
+        TzGen.__init__(self, f, ns, node, "", {})
+        self.binder = TZ_PIPE_BINDER + " "
+        self.self_arg, self.self_param = "", ""
+        self.new_lit = new_lit
+        self.npred = 0
+        self.first_line = None
+
+    def vparams(self, names, env):
+        out = []
+        for n in names:
+            out.append(f"({lname(n)} : {tz_lty(env[n][0])})")
+            if env[n][0][0] == "fpeek":
+                out.append(f"({env[n][0][2]} : {tz_lty(env[n][0][1], False)} → R Bool)")
+        return " ".join(out)
+
+    def vargs(self, names, env):
+        out = []
+        for n in names:
+            out.append(lname(n))
+            if env[n][0][0] == "fpeek":
+                out.append(env[n][0][2])
+        return " ".join(out)
+
+    def fields_of(self, t):
+        if t[0] == "dtr":
+            return {"range": ("range", t[1]), "kind": ("kind",), "comments": ("comm",)}
+        if t[0] == "range":
+            return {"start": t[1], "end": t[1]}
+        return {}
+
+    def cg(self, e, env, k):
+        kd = e.kind
+        if kd == "var" and e.name == "DATE_END" and e.name not in env:
+            return k(self.ext("DATE_END"), ("ndt",))
+        if kd == "field":
+            if e.e.kind == "field" and e.e.e.kind == "self" and (e.e.name, e.name) == ("ctx", "locale"):
+                return k(self.ext("self_ctx_locale"), ("loc",))
+
+            def kf(a, t):
+                fs = self.fields_of(t)
+                if e.name not in fs:
+                    fail(self.w(e), f"field `.{e.name}` of {tz_lty(t)} is outside the translated subset (tz functions)")
+                return k(f"{a}.{lname(e.name)}", fs[e.name])
+            return self.cg(e.e, env, kf)
+        if kd == "cmp":
+            def ka(a, ta):
+                def kb(b, tb):
+                    if ta != tb or ta[0] not in ("ndt", "kind") or (ta[0] == "kind" and e.op not in ("==", "!=")):
+                        fail(self.w(e), f"`{e.op}` between {tz_lty(ta)} and {tz_lty(tb)} is outside the translated subset (tz functions)")
+                    op = {"==": "=", "!=": "≠", "<": "<", "<=": "≤", ">": ">", ">=": "≥"}[e.op]
+                    return k(f"(decide ({a} {op} {b}))", ("bool",))
+                return self.cg(e.b, env, kb)
+            return self.cg(e.a, env, ka)
+        if kd == "and":
+            pa, pb = self.pure(e.a, env), self.pure(e.b, env)  # `&&` is lazy: both sides have to be free of effects
+            if pa[1] != ("bool",) or pb[1] != ("bool",):
+                fail(self.w(e), "`&&` between values that are not `bool`")
+            return k(f"({pa[0]} && {pb[0]})", ("bool",))
+        if kd == "range":
+            def ka(a, ta):
+                def kb(b, tb):
+                    if ta != tb:
+                        fail(self.w(e), "`a..b` between values of different types")
+                    return k(f"(Range.mk {a} {b})", ("range", ta))
+                return self.cg(e.b, env, kb)
+            return self.cg(e.a, env, ka)
+        if kd == "some":
+            return self.cg(e.e, env, lambda a, t: k(f"(some {a})", ("opt", t)))
+        if kd == "try":
+            def kt(a, t):
+                v = self.tmp()
+                if t[0] == "opt" and self.frame["kind"] == "fn" and self.node.ret[0] == "opt":
+                    return [f"match {a} with", "| none => .ok none", f"| some {v} =>"] + k(v, t[1])
+                if t[0] != "opt" or self.frame["kind"] not in ("fromfn", "while") or self.frame.get("try_none") is None:
+                    fail(self.w(e), "`?` is translated on an `Option`, inside the `from_fn` closure or a function returning an `Option` (tz functions)")
+                return [f"match {a} with", f"| none => {self.frame['try_none'](self.frame)}", f"| some {v} =>"] + k(v, t[1])
+            return self.cg(e.e, env, kt)
+        if kd == "ifv" and any(x.kind == "var" and x.name == "None" and "None" not in env for x in (e.a, e.b)):
+            def kc(c, tc):
+                if tc[0] != "bool":
+                    fail(self.w(e), "the condition is not a `bool`")
+                other = e.b if e.a.kind == "var" and e.a.name == "None" else e.a
+                po = self.pure(other, env)
+                if po[1][0] != "opt":
+                    fail(self.w(e), "`None` in one branch of an `if` whose other branch is not an `Option`")
+                pa, pb = ("none", po[0]) if other is e.b else (po[0], "none")
+                return k(f"(if {c} then {pa} else {pb})", po[1])
+            return self.cg(e.c, env, kc)
+        if kd == "method" and e.name == "next" and not e.args and e.e.kind == "method" and e.e.e.kind == "self" and e.e.name in self.sigs:
+            return self.iter_call(e.e, env, True, k)
+        if kd == "method" and e.e.kind == "self" and e.name in self.sigs:
+            return self.iter_call(e, env, False, k)
+        if kd == "blockv":
+            blk = e.body
+            if blk.tail is None:
+                fail(self.w(e), "a block without a value as an expression (tz functions)")
+            env2 = dict(env)
+
+            def go(i, env3):
+                if i == len(blk.stmts):
+                    return self.cg(blk.tail, env3, k)
+                s = blk.stmts[i]
+                if s.kind != "let" or s.mut:
+                    fail(self.w(s), "only immutable `let`s are translated inside a block expression (tz functions)")
+                if s.e.kind == "method" and s.e.name == "clone" and s.e.e.kind == "var" and s.e.e.name == s.name and s.name in env3:
+                    return go(i + 1, env3)  # `let x = x.clone();`: the same value under the same name
+                if s.name in env3:
+                    fail(self.w(s), f"`let {s.name}` shadows a variable in scope (tz functions)")
+
+                def kl(a, t):
+                    env4 = dict(env3)
+                    env4[s.name] = (t, False)
+                    return [f"let {lname(s.name)} := {a}"] + go(i + 1, env4)
+                return self.cg(s.e, env3, kl)
+            return go(0, env2)
+        if kd == "pathcall":
+            path = f"{e.ty}::{e.name}"
+            if path in ("std::cmp::min", "std::cmp::max") and len(e.args) == 2:
+                def ka(a, ta):
+                    def kb(b, tb):
+                        if ta != tb or ta[0] != "ndt":
+                            fail(self.w(e), f"`{path}` is translated on two `NaiveDateTime` only (tz functions)")
+                        return k(f"(cmp{e.name.capitalize()} {a} {b})", ta)
+                    return self.cg(e.args[1], env, kb)
+                return self.cg(e.args[0], env, ka)
+            if path == "DateTimeRange::new_with_sorted_comments" and len(e.args) == 3:
+                def kargs(av):
+                    (r, tr), (kk, tk), (c, tc) = av
+                    if tr[0] != "range" or tk != ("kind",) or tc != ("comm",):
+                        fail(self.w(e), "`DateTimeRange::new_with_sorted_comments(range, kind, comments)`: argument types")
+                    t = ("dtr", tr[1])
+                    return k(f"({{ range := {r}, kind := {kk}, comments := {c} }} : {tz_lty(t)})", t)
+                return self.cg_args(e.args, env, [], kargs)
+        if kd == "method" and e.e.kind == "var" and e.e.name in env and env[e.e.name][0][0] == "fpeek":
+            name, (vt, mut) = e.e.name, env[e.e.name]
+            if not mut:
+                fail(self.w(e), f"`{name}` is not `mut`")
+            v = self.tmp()
+            if e.name == "next" and not e.args:
+                return [f"bnd (FilterPeek.next {vt[2]} {lname(name)}) fun {v} =>", f"let {lname(name)} := {v}.2"] + k(f"{v}.1", ("opt", vt[1]))
+            if e.name == "next_if" and len(e.args) == 1 and e.args[0].kind == "closure" and len(e.args[0].params) == 1:
+                cl = e.args[0]
+                if cl.params[0] in env:
+                    fail(self.w(cl), f"the closure parameter `{cl.params[0]}` shadows a variable in scope (tz functions)")
+                env2 = dict(env)
+                env2[cl.params[0]] = (vt[1], False)
+                if cl.body.stmts or cl.body.tail is None:
+                    fail(self.w(cl), "the closure of `next_if` has to be a single expression (tz functions)")
+                c, tc = self.pure(cl.body.tail, env2)
+                if tc != ("bool",):
+                    fail(self.w(cl), "the closure of `next_if` has to return a `bool`")
+                return [f"bnd (FilterPeek.next_if {vt[2]} (fun ({lname(cl.params[0])} : {tz_lty(vt[1])}) => {c}) {lname(name)}) fun {v} =>",
+                        f"let {lname(name)} := {v}.2"] + k(f"{v}.1", ("opt", vt[1]))
+            fail(self.w(e), f"method `.{e.name}()` on a `Peekable<Filter<..>>` is outside the translated subset (tz functions)")
+        if kd == "method" and e.e.kind == "self" and e.name == "iter_range_naive" and len(e.args) == 2:
+            def kargs(av):
+                if [t for _, t in av] != [("ndt",), ("ndt",)]:
+                    fail(self.w(e), "`self.iter_range_naive(from, to)`: argument types")
+                v = self.tmp()
+                return [f"bnd ({self.ext('ext_iter_range_naive')} {av[0][0]} {av[1][0]}) fun {v} =>"] + k(v, ("src", ("dtr", ("ndt",))))
+            return self.cg_args(e.args, env, [], kargs)
+        if kd == "method" and e.name == "filter" and len(e.args) == 1 and e.args[0].kind == "closure":
+            cl = e.args[0]
+
+            def kr(r, tr):
+                if tr[0] != "src" or len(cl.params) != 1 or cl.body.stmts or cl.body.tail is None:
+                    fail(self.w(e), "`.filter(|x| EXPR)` is translated on the iterator `self.iter_range_naive(..)` only (tz functions)")
+                if cl.params[0] in env:
+                    fail(self.w(cl), f"the closure parameter `{cl.params[0]}` shadows a variable in scope (tz functions)")
+                env2 = dict(env)
+                env2[cl.params[0]] = (tr[1], False)
+
+                def kb(a, t):
+                    if t != ("bool",):
+                        fail(self.w(cl), "the closure of `filter` has to return a `bool`")
+                    return [f".ok {a}"]
+                saved, self.frame = self.frame, {"kind": "closure"}
+                body = self.cg(cl.body.tail, env2, kb)
+                self.frame = saved
+                self.npred += 1
+                pn = f"pred{self.npred}"
+                return [f"let {pn} := fun ({lname(cl.params[0])} : {tz_lty(tr[1])}) => ("] + self.ind(body) + ["  )"] + k(r, ("filt", tr[1], pn))
+            return self.cg(e.e, env, kr)
+        return TzGen.cg(self, e, env, k)
+
+    def iter_call(self, e, env, first, k):
+        """`self.f(args)` of a translated function returning `impl Iterator`: collected (`List`), or with `.next()` right
+        behind it the first item of the fresh iterator (`<f>.first`)"""
+        sig = self.sigs[e.name]
+
+        def kargs(av):
+            if [t for _, t in av] != sig["params"]:
+                fail(self.w(e), f"the call of `{e.name}`: argument types")
+            for x in sig["externs"]:
+                self.ext(x)
+            v = self.tmp()
+            args = "".join(f" {x}" for x, _ in av) + "".join(f" ({x} := {x})" for x in sig["externs"])
+            self.fuel = True
+            suffix = ".first" if first else "«FIRST»"
+            return [f"bnd ({sig['lean']}{suffix}{args} fuel) fun {v} =>"] + k(v, ("opt", sig["item"]) if first else ("iterret", sig["item"]))
+        return self.cg_args(e.args, env, [], kargs)
+
+    def method(self, e, r, tr, av, k):
+        name, tys = e.name, [t for _, t in av]
+        if name == "clone" and not av and tr[0] in ("loc", "ldt", "ndt", "dtr", "kind", "comm"):
+            return k(r, tr)
+        if tr[0] == "filt" and name == "peekable" and not av:
+            return k(f"(FilterPeek.mk {r} none)", ("fpeek", tr[1], tr[2]))
+        if tr[0] == "loc" and name == "naive" and tys == [("ldt",)]:
+            v = self.tmp()
+            return [f"bnd ({self.ext('ext_locale_naive')} {r} {av[0][0]}) fun {v} =>"] + k(v, ("ndt",))
+        if tr[0] == "loc" and name == "datetime" and tys == [("ndt",)]:
+            v = self.tmp()
+            return [f"bnd ({self.ext('ext_locale_datetime')} {r} {av[0][0]}) fun {v} =>"] + k(v, ("ldt",))
+        fail(self.w(e), f"method `.{name}()` on {tz_lty(tr)} is outside the translated subset (tz functions)")
+
+    def assign_path(self, s, env, rest):
+        vt = env[s.name][0]
+        t, types = vt, []
+        for f in s.path:
+            fs = self.fields_of(t)
+            if f not in fs:
+                fail(self.w(s), f"field `.{f}` of {tz_lty(t)} is outside the translated subset (tz functions)")
+            types.append(t)
+            t = fs[f]
+
+        def ka(a, ta):
+            if ta != t:
+                fail(self.w(s), f"assignment of a {tz_lty(ta)} to a field of type {tz_lty(t)}")
+            term, prefix = a, [lname(s.name)] + [lname(f) for f in s.path]
+            for i in range(len(s.path) - 1, -1, -1):
+                term = f"{{ {'.'.join(prefix[: i + 1])} with {lname(s.path[i])} := {term} }}"
+            return [f"let {lname(s.name)} := {term}"] + rest(env)
+        return self.cg(s.e, env, ka)
+
+    def stmts(self, blk, i, env, frame, k):
+        self.frame = frame
+        if i < len(blk.stmts) and blk.stmts[i].kind == "whilelet":
+            s = blk.stmts[i]
+            return self.loop_(s, env, frame, lambda env2: self.stmts(blk, i + 1, env2, frame, k), True, let_name=s.name)
+        if i == len(blk.stmts) and blk.tail is not None and frame["kind"] == "fromfn" and k is None:
+            return self.cg(blk.tail, env, lambda a, t: self.ret(blk.tail, a, t, frame, env))
+        if i == len(blk.stmts) and blk.tail is not None and frame["kind"] == "fn" and k is None and blk.tail.kind == "pathcall" \
+                and f"{blk.tail.ty}::{blk.tail.name}" == "std::iter::from_fn":
+            return self.from_fn(blk.tail, env)
+        return TzGen.stmts(self, blk, i, env, frame, k)
+
+    def ret(self, node, a, t, frame, env):
+        if frame["kind"] == "fromfn" or (frame["kind"] == "while" and "ret_ty" in frame):
+            if t != frame["ret_ty"]:
+                fail(self.w(node), f"the closure returns a {tz_lty(t)} where a {tz_lty(frame['ret_ty'])} is expected")
+            if frame["kind"] == "while":
+                return [f".ok (.ret {a} {self.tuple_(frame['state'])})"]
+            return [f".ok ({a}, {self.tuple_(frame['fn_state'])})"]
+        return TzGen.ret(self, node, a, t, frame, env)
+
+    def from_fn(self, e, env):
+        if len(e.args) != 1 or e.args[0].kind != "closure" or e.args[0].params:
+            fail(self.w(e), "`std::iter::from_fn(move || { .. })` expected (tz functions)")
+        cl = e.args[0]
+        if self.node.ret[0] != "iterret":
+            fail(self.w(e), "`from_fn` in a function that does not return `impl Iterator`")
+        item = self.node.ret[1]
+        used = set()
+        tz_idents(cl, used)
+        state = [n for n in env if n in used and env[n][1]]
+        fixed = [n for n in env if n in used and not env[n][1]]
+        name = f"{self.lean_name}.next"
+        outer_ext, self.externs = self.externs, []
+
+        def try_none(fr):
+            if fr["kind"] == "while":
+                return f".ok (.ret none {self.tuple_(fr['state'])})"
+            return f".ok (none, {self.tuple_(state)})"
+        fr = {"kind": "fromfn", "state": state, "fn_state": state, "ret_ty": ("opt", item), "try_none": try_none}
+        env2 = {n: env[n] for n in fixed + state}
+        nloop0 = self.nloop
+        body = self.block(cl.body, env2, fr, None)
+        has_loops = self.nloop > nloop0
+        exts, self.externs = self.externs, outer_ext
+        for x in exts:
+            self.ext(x)
+        sty = self.tuple_ty(env, state)
+        params = (("(fuel : Nat) " if has_loops else "") + self.vparams(fixed + state, env)).rstrip()
+        self.defs.append((name, cl.line, "from_fn", params, f"R ({tz_lty(('opt', item), False)} × {sty})", body, exts))
+        st = self.tuple_(state)
+        call = f"{name} «EXT:{name}»{'fuel ' if has_loops else ''}" + self.vargs(fixed + state, env)
+        self.fuel = True
+        v = self.tmp()
+        self.first_line = [f"bnd ({call}) fun {v} =>", f".ok {v}.1"]
+        return [f"fromFn (fun {st} => {call}) fuel {st}"]
+
+    def binder_for(self, sig):
+        """only the type parameters that occur in the signature (an unused implicit one could not be inferred)"""
+        tps = [t for t in ("L", "DT", "Kind", "Comments") if re.search(rf"(?<![A-Za-z0-9_.]){t}(?![A-Za-z0-9_])", sig)]
+        return "{" + " ".join(tps) + " : Type} [DecidableEq Kind] "
+
+    def gen(self):
+        f = self.node
+        env = {pn: (pt, mut) for pn, pt, mut in f.params}
+        self.frame = {"kind": "fn", "state": []}
+        body = self.block(f.body, env, self.frame, None)
+        exts = list(self.externs)
+        L = []
+        for name, line, what, params, rty, lines, dexts in self.defs:
+            doc = {"while": "the `while` loop of", "from_fn": "one call of the closure passed to `std::iter::from_fn` in"}[what]
+            L.append(f"/-- {doc} `OpeningHours::{f.name}` ({self.f}:{line})" + "".join(f"; {x} = {TZ_EXT[x][1]}" for x in dexts)
+                     + ("; the captured `mut` state is threaded: argument and second component of the result" if what == "from_fn" else "") + " -/")
+            L.append(f"def {name} {self.binder_for(params + self.ext_params(dexts) + rty)}{params}{self.ext_params(dexts)} : {rty} :=")
+            L += self.ind(self.finish(lines))
+            L.append("")
+        ps = " ".join(f"({lname(pn)} : {tz_lty(pt)})" for pn, pt, _ in f.params)
+        sig = f"`OpeningHours::{f.name}(&self, " + ", ".join(f"{pn}: L::DateTime" for pn, _, _ in f.params) + ")"
+        docx = "".join(f"; {x} = {TZ_EXT[x][1]}" for x in exts)
+        fuelp = " (fuel : Nat)" if self.fuel else ""
+        if f.ret[0] == "iterret":
+            L.append(f"/-- {sig} -> impl Iterator<Item = DateTimeRange<L::DateTime>>` ({self.f}:{f.line}){docx}; the iterator is collected: "
+                     "the `from_fn` closure is called until it returns `None`, at most `fuel` times -/")
+            L.append(f"def {self.lean_name} {self.binder_for(ps + self.ext_params(exts))}{ps}{self.ext_params(exts)}{fuelp} : R {tz_lty(f.ret, False)} :=")
+            L += self.ind([x.replace("«FIRST»", "") for x in self.finish(body)])
+            L.append("")
+            L.append(f"/-- `{f.name}(..).next()` on the fresh iterator: its first item (the same code up to the creation of the iterator, then ONE call of the closure) -/")
+            L.append(f"def {self.lean_name}.first {self.binder_for(ps + self.ext_params(exts))}{ps}{self.ext_params(exts)}{fuelp} : R {tz_lty(('opt', f.ret[1]), False)} :=")
+            fb = body[:-1] + self.first_line if self.first_line else [x.replace("«FIRST»", ".first") for x in body]
+            L += self.ind(self.finish(fb))
+        else:
+            L.append(f"/-- {sig} -> Option<L::DateTime>` ({self.f}:{f.line}){docx} -/")
+            L.append(f"def {self.lean_name} {self.binder_for(ps + self.ext_params(exts))}{ps}{self.ext_params(exts)}{fuelp} : R {tz_lty(f.ret, False)} :=")
+            L += self.ind(self.finish(body))
+        return L
+
+
+def tz_pipe_section(toks):
+    tk, tr = toks(F_OH), toks(F_RANGE)
+    uses = file_uses(tk)
+    for imp in [("chrono", "NaiveDateTime"), ("crate::localization", "Localize"), ("crate", "DateTimeRange")]:
+        if imp not in uses:
+            fail(F_OH, f"`use {imp[0]}::{imp[1]};` not found: the name `{imp[1]}` is read as that item")
+    texts, rtexts = [x.text for x in tk], [x.text for x in tr]
+
+    def find(tx, seq, rel, what):
+        hits = [i for i in range(len(tx) - len(seq)) if tx[i : i + len(seq)] == seq]
+        if len(hits) != 1:
+            fail(rel, f"{what} not found (or found twice)")
+        return hits[0]
+
+    find(texts, ["pub", "const", "DATE_END", ":", "NaiveDateTime", "="], F_OH, "`pub const DATE_END: NaiveDateTime = ..`")
+    o = find(rtexts, ["struct", "DateTimeRange", "<", "D", "=", "NaiveDateTime", ">", "{", "pub", "range", ":", "Range", "<", "D", ">", ",", "pub", "kind", ":",
+                      "RuleKind", ",", "pub", "comments", ":", "UniqueSortedVec", "<", "Arc", "<", "str", ">>", ",", "}"], F_RANGE,
+             "`pub struct DateTimeRange<D = NaiveDateTime> { pub range: Range<D>, pub kind: RuleKind, pub comments: UniqueSortedVec<Arc<str>>, }`")
+    find(rtexts, ["fn", "new_with_sorted_comments", "(", "range", ":", "Range", "<", "D", ">", ",", "kind", ":", "RuleKind", ",", "comments", ":", "UniqueSortedVec",
+                  "<", "Arc", "<", "str", ">>", ",", ")", "->", "Self", "{", "Self", "{", "range", ",", "kind", ",", "comments", "}", "}"], F_RANGE,
+         "`fn new_with_sorted_comments(range, kind, comments) -> Self { Self { range, kind, comments } }`")
+    if not {"PartialEq", "Eq"} <= derives_of(toks.raw("opening-hours-syntax/src/rules/mod.rs"), "RuleKind"):
+        fail("opening-hours-syntax/src/rules/mod.rs", "`RuleKind` has to derive PartialEq, Eq (`==` is translated as equality)")
+    L = ["/-! ### [tz extension] the localisation pipeline of opening-hours/src/opening_hours.rs -/", "", "namespace Localize", "",
+         f"/-- `struct DateTimeRange<D>` ({F_RANGE}:{tr[o].line}); `RuleKind` and `UniqueSortedVec<Arc<str>>` are the type parameters `Kind`, `Comments` -/",
+         "structure DateTimeRange (D Kind Comments : Type) where", "  range : Range D", "  kind : Kind", "  comments : Comments", ""]
+    names = ["iter_range", "iter_from", "next_change"]
+    where = find_impl_fns(tk, F_OH, "OpeningHours", None, names, header=TZ_OH_HEADER)
+    sigs = {}
+    for rname in names:
+        p = TzParser(tk, F_OH, "ldt")
+        p.i = where[rname]
+        node = p.fn()
+        g = TzPipeGen(F_OH, "OpeningHours", node, None)
+        g.sigs = sigs
+        L += g.gen() + [""]
+        if node.ret[0] == "iterret":
+            sigs[rname] = dict(lean=f"OpeningHours.{rname}", params=[pt for _, pt, _ in node.params], item=node.ret[1], externs=list(g.externs))
+    L += ["end Localize", ""]
+    return L
+
 
 
 def main(argv):
